@@ -238,10 +238,10 @@ ORACLES = [
             "orthorhombic": check_range_perm_known_fewpairs,
         },
         quick=120,
-        thorough=400,
+        thorough=800,
     ),
-    Oracle("frame_rotation", m_case(60), check_frame, classify=by_sys, quick=120, thorough=400),
-    Oracle("symmetry_relabel", m_case(60), check_symmetry, classify=by_sys, quick=120, thorough=400),
+    Oracle("frame_rotation", m_case(60), check_frame, classify=by_sys, quick=120, thorough=800),
+    Oracle("symmetry_relabel", m_case(60), check_symmetry, classify=by_sys, quick=120, thorough=800),
     Oracle(
         "uniform_and_single",
         st.fixed_dictionaries(
